@@ -55,7 +55,7 @@ def worker(sh):
             ent = []
             for i in range(l):
                 if rng.random() < 0.5:
-                    v = rng.choice(BIG + [rng.getrandbits(256), rng.getrandbits(255)])
+                    v = rng.choice(BIG + [rng.getrandbits(256), rng.getrandbits(255), wkd.big_id(rng), wkd.big_id(rng), wkd.big_id(rng)])
                     ent.append((i, v))
             chain.append(ent)
         if rng.random() < 0.3:
